@@ -24,7 +24,7 @@ func init() {
 	register(&Rule{ID: "C11.R1", Prop: "C11", Floor: 6,
 		Doc: "stage barriers: parser.Parse, parser.Lex, symtable.NewSymTable and compiler.compileAst each defer a closure that recovers and assigns the named error result; everything a pipeline entry point (compile.Compile, parser.ParseString/LexString/Parse/Lex) does outside a barrier is free of panic sites; no goroutine is started in the pipeline packages",
 		Run: runC11R1})
-	register(&Rule{ID: "C11.R2", Prop: "C11", Floor: 60,
+	register(&Rule{ID: "C11.R2", Prop: "C11", Floor: 45,
 		Doc: "what a recovered panic becomes: every explicit panic in parser/symtable/compile/ast is classified by the static construction of its argument: (a) SyntaxError-family exception, (b) re-panic of an error that came out of a nested barrier, (c) anything else, which MakeException turns into SystemError and therefore must be unreachable: discharged by exhaustiveness (default arm of a switch covering every declared constant / every implementer of a sealed interface) or by a row of the confirmed-instance table; new (c)-sites fail",
 		Run: runC11R2})
 }
@@ -424,15 +424,31 @@ func movedPanic(c *Ctx, p *packages.Package, rel string, fd *ast.FuncDecl, label
 		return hit
 	}
 	prefix, suffix := rel+"|", "|"+label
+	// a message assembled from a literal and a variable part ("… invalid for " + kind + " variable") stands for
+	// the reviewed messages that begin with that literal
+	lit := ""
+	if i := strings.Index(label, `" + `); i > 0 && strings.HasPrefix(label, `"`) {
+		lit = label[:i]
+	}
 	var keys []string
 	for k := range confirmedUnreachable {
-		if strings.HasPrefix(k, prefix) && strings.HasSuffix(k, suffix) {
+		if !strings.HasPrefix(k, prefix) {
+			continue
+		}
+		if strings.HasSuffix(k, suffix) {
 			keys = append(keys, k)
+		} else if lit != "" {
+			if j := strings.LastIndex(k, "|"); j >= 0 && strings.HasPrefix(k[j+1:], lit) {
+				keys = append(keys, k)
+			}
 		}
 	}
 	sort.Strings(keys)
 	for _, k := range keys {
-		fid := strings.TrimSuffix(strings.TrimPrefix(k, prefix), suffix)
+		fid := strings.TrimPrefix(k, prefix)
+		if j := strings.LastIndex(fid, "|"); j >= 0 {
+			fid = fid[:j]
+		}
 		for _, f := range c.Files(p) {
 			for _, d := range f.Decls {
 				if od, ok := d.(*ast.FuncDecl); ok && od.Body != nil && declID(p, od) == fid && calls(od, 2) {
